@@ -102,6 +102,8 @@ Inductive gop :=
 | GSync (rand : N)        (* MsgCounterSyncRsp: get_or_init_global_group_data_ctr reports the counter *)
 | GReserve (rand : N)     (* initiate_group up to the store (or to its end if no store is due) *)
 | GStore (ok : bool)      (* the store inside initiate_group succeeds / fails; the call ends *)
+| GReset                  (* Matter::reset_transport -> Sessions::reset: sessions cleared,
+                             the global group data counter and its boundary kept *)
 | GCrash.                 (* restart *)
 
 (** [rb]: the caller takes the reservation back when the store fails
@@ -127,6 +129,7 @@ Definition g_step (rb : bool) (s : gstate) (op : gop) : gstate * cev :=
           if ok then (mkGS (gs_ram s) (Some b) None, EvYield v (Some b))
           else (mkGS (if rb then g_unreserve v else gs_ram s) (gs_kv s) None, EvFail)
       end
+  | GReset => (s, EvDone)
   | GCrash => (g_init (gs_kv s), EvBoot)
   end.
 
